@@ -33,8 +33,9 @@ def main():
         data["findings"].append({"id": "KF-" + cls.replace("/", "-").replace(":", "_").replace(">", "to"), "property": prop, "cls": cls,
                                  "status": "open", "what": "%s -- e.g. %s" % (describe(cls), json.dumps(d, default=repr)[:260]),
                                  "witness": json.loads(json.dumps(inp, default=repr)) if inp is not None else None})
-    json.dump(data, open(KNOWN, "w"), indent=1)
-    print("added", len(new))
+    if not os.environ.get("REGISTER_DRY"):
+        json.dump(data, open(KNOWN, "w"), indent=1)
+    print("dry run, would add" if os.environ.get("REGISTER_DRY") else "added", len(new))
     for c in sorted(new):
         print("  ", c)
 
